@@ -575,6 +575,8 @@ type reopenResult struct {
 	REpoch        uint64
 	RContent      []DV
 	Panic         string
+	LockLeft      bool     // the directory is still locked after the open attempt (and Close, when it succeeded)
+	HandlesLeft   []string // handles still open at that point
 }
 
 func listImage(d *sim.SimDir) (snaps, segs []uint64) {
@@ -637,6 +639,7 @@ func reopen(files map[string][]byte, wo WorldOpts, universe []int) reopenResult 
 				res.WFresh = true
 			}
 		}
+		res.LockLeft, res.HandlesLeft = dw.Locked(), dw.OpenHandles()
 		// reader
 		dr := sim.FromImage(files, &sim.Recorder{})
 		cfgR := bluge.DefaultConfigWithDirectory(func() index.Directory { return dr })
@@ -717,7 +720,7 @@ func runProto(o Opts, mode string) error {
 		wo.SegVersion = uint32(1 + rng.Intn(2))
 		wo.Unsafe = rng.Intn(4) == 0 || (mode == "c11" && rng.Intn(3) == 0)
 		wo.Merges = []string{"small", "small", "default", "off"}[rng.Intn(4)]
-		if mode == "c02" && !wo.Unsafe && wo.Merges == "off" {
+		if (mode == "c02" || mode == "c11") && !wo.Unsafe && wo.Merges == "off" {
 			wo.MemMergeMin = 2 // no file merges, but the persister still merges in-memory segments (staged schedule below)
 		}
 		wo.KeepN = 1 + rng.Intn(3)
@@ -936,7 +939,7 @@ func protoScenario(cw *cq.Writer, w *World, rng *rand.Rand, mode string, faults 
 			faults.clearTransient()
 		}
 	}
-	if mode == "c02" && !w.O.Unsafe && w.O.Merges == "off" && (w.Dir != nil || w.RDir != nil) {
+	if (mode == "c02" || mode == "c11") && !w.O.Unsafe && w.O.Merges == "off" && (w.Dir != nil || w.RDir != nil) {
 		if err := protoSupersededMemMerge(w, faults, desc); err != nil {
 			return err
 		}
@@ -1112,6 +1115,32 @@ func protoScenario(cw *cq.Writer, w *World, rng *rand.Rand, mode string, faults 
 		for _, e := range w.Rec.Snapshot() {
 			if e.Kind == "double-close" {
 				cw.OracleFail("handle-closed-twice", e.Note, desc)
+			}
+		}
+		// an OpenWriter that is refused after it took the lock (no snapshot passes its checksum) gives the lock back
+		if w.Dir != nil {
+			img := w.Dir.Image()
+			bad := 0
+			for k, v := range img {
+				if strings.HasPrefix(k, ".snp/") && len(v) > 0 {
+					v[len(v)-1] ^= 0x5a
+					bad++
+				}
+			}
+			if bad > 0 {
+				cw.OracleEval(1)
+				res := reopen(img, w.O, w.universeIDs())
+				cw.Count("refused_open_probes", 1)
+				if res.WFail {
+					cw.Count("refused_open_probes_refused", 1)
+				}
+				if res.Panic != "" {
+					cw.OracleFail("recovery-crashes", "opening a directory whose snapshots all fail their checksum: "+res.Panic, desc)
+				} else if res.LockLeft {
+					cw.OracleFail("lock-not-released", fmt.Sprintf("the directory stays locked after an OpenWriter that failed=%v (%s)", res.WFail, res.WErr), desc)
+				} else if len(res.HandlesLeft) > 0 {
+					cw.OracleFail("handles-leaked", fmt.Sprintf("handles still open after an OpenWriter that failed=%v: %v", res.WFail, res.HandlesLeft), desc)
+				}
 			}
 		}
 	}
@@ -1437,6 +1466,15 @@ func protoProbes(cw *cq.Writer, w *World, c *pconv, lin *lineage, rng *rand.Rand
 				continue
 			}
 			c.addProbe(at, ch, res)
+			if mode == "c11" {
+				cw.OracleEval(1)
+				if res.LockLeft {
+					cw.OracleFail("lock-not-released", fmt.Sprintf("the directory stays locked after OpenWriter on the crash image (open failed=%v) and Close", res.WFail), pdesc)
+				}
+				if len(res.HandlesLeft) > 0 {
+					cw.OracleFail("handles-leaked", fmt.Sprintf("handles still open after OpenWriter on the crash image (open failed=%v) and Close: %v", res.WFail, res.HandlesLeft), pdesc)
+				}
+			}
 			// a sample of the images is also materialised on a real file system and reopened in a child process
 			if (pi*7+vi)%fsEvery == 0 || tinySnapshot(d, ch) {
 				cw.Count("crash_images_on_real_fs", 1)
